@@ -537,7 +537,90 @@ NPARTS = 64
 
 
 def shards(tier, seed):
-    return [('p', p) for p in range(NPARTS)]
+    return [('p', p) for p in range(NPARTS)] + [('mode16', 0)]
+
+
+def mode_twins():
+    """(instance, bytes for a 32-bit code segment, bytes for a 16-bit code segment) of register-only and implicit-operand rows:
+    the operand-size prefix means the opposite in the other configuration (dis(..., {'opmode': u16, 'admode': u16})), so
+    X under 66 in 32-bit code and X without prefix in 16-bit code are one instruction, and so are X and 66 X."""
+    out = []
+    rows = [i for i in instances() if not i['bases'] and not i['idx'] and not i['extra'].get('low') and not i['extra'].get('stack') and not i['extra'].get('branch')
+            and not i['extra'].get('string') and '[' not in i['text'] and 'addr16' not in i['text'] and i['mn'] not in ('lea', 'xlat', 'enter', 'leave')]
+    asm = gnuref.gas([i['text'] for i in rows], 'intel')
+    for inst, (g, msg) in zip(rows, asm):
+        if not g:
+            continue
+        if g[:1] == b'\x66':
+            out.append((inst, g, g[1:]))
+        elif g[0] not in (0x67, 0xf2, 0xf3, 0xf0, 0x26, 0x2e, 0x36, 0x3e, 0x64, 0x65):
+            out.append((inst, g, b'\x66' + g))
+    return out
+
+
+def run_mode16(sh, tier, seed):
+    from miasmx.arch.ia32_arch import x86mnemo
+    from miasmx.arch.ia32_reg import x86_afs
+    from miasmx.tools import emul_helper
+    for inst, b32, b16 in mode_twins():
+        try:
+            i32 = x86mnemo.dis(b32)
+            i16 = x86mnemo.dis(b16, {'opmode': x86_afs.u16, 'admode': x86_afs.u16})
+        except Exception:
+            i32 = i16 = None
+        if i32 is None or i16 is None or i32.l != len(b32) or i16.l != len(b16):
+            sh.counters['mode16_not_decoded(C01/C10)'] += 1
+            continue
+        try:
+            a32 = emul_helper.get_instr_expr(i32, exprgen.Int(0x5000, 32), [])
+        except Exception:
+            sh.counters['mode16_reference_lift_raises(C11)'] += 1
+            continue
+        cls = '%s/%d/%s/mode16' % (inst['mn'], inst['size'], inst['form'])
+        wit = {'text': inst['text'], 'code': b32.hex(), 'code16': b16.hex(), 'mode16': True}
+        fam = re.sub(r'^(set|cmov)(' + '|'.join(CC) + ')$', r'\1cc', inst['mn'])
+        try:
+            a16 = emul_helper.get_instr_expr(i16, exprgen.Int(0x5000, 32), [])
+        except Exception as e:
+            sh.case(('mode16', inst['text']), True, cls=cls)
+            sh.violation('mode16/%s/%d/lift-raises:%s' % (fam, inst['size'], type(e).__name__), '%s: %s lifts in 32-bit code, but %s decoded for a 16-bit code segment raises %r' % (inst['text'], b32.hex(), b16.hex(), e), wit)
+            continue
+        rng = common.rng_for(seed, 'C04m16', inst['text'])
+        compared = 0
+        bad = None
+        for k in range(6 if tier == 'quick' else 40):
+            regs, flags, hot = make_state(inst, rng, k)
+            outs = []
+            for affs in (a32, a16):
+                env = irsem.Env(seed='c04m')
+                for r in O.REGS:
+                    env.ids[r] = regs[r]
+                for f, v in flags.items():
+                    env.ids[f] = v
+                env.ids.update({'tf': 0, 'i_f': 1, 'iopl_f': 0, 'nt': 0, 'rf': 0, 'vm': 0, 'ac': 0, 'vif': 0, 'vip': 0, 'i_d': 0})
+                try:
+                    new, writes = irsem.exec_assignments(affs, env)
+                    outs.append(dict((w_[1], new.ids.get(w_[1])) for w_ in writes if w_[0] == 'id' and w_[1] != 'eip'))
+                except (irsem.Undefined, irsem.Uninterpreted):
+                    outs.append(None)
+                except irsem.IllFormed:
+                    outs.append('ill-typed')
+            if outs[0] is None or outs[1] is None or outs[0] == 'ill-typed':
+                continue
+            compared += 1
+            if outs[1] == 'ill-typed':
+                bad = ('ill-typed', 'the 16-bit-segment lift is ill-typed')
+                break
+            und = undefined_flags(inst, regs, None)
+            keys = (set(outs[0]) | set(outs[1])) - set(und)
+            diff = sorted(k_ for k_ in keys if outs[0].get(k_, env.ids.get(k_)) != outs[1].get(k_, env.ids.get(k_)))
+            if diff:
+                bad = ('value:' + diff[0], '%s: 32-bit code gives %s, 16-bit code gives %s [eax=%08x ecx=%08x edx=%08x ebx=%08x]' % (
+                    diff[0], outs[0].get(diff[0]), outs[1].get(diff[0]), regs['eax'], regs['ecx'], regs['edx'], regs['ebx']))
+                break
+        sh.case(('mode16', inst['text']), compared > 0, cls=cls if compared else None)
+        if bad:
+            sh.violation('mode16/%s/%d/%s' % (fam, inst['size'], bad[0]), '%s: %s in a 32-bit code segment and %s in a 16-bit one are the same instruction, but %s' % (inst['text'], b32.hex(), b16.hex(), bad[1]), wit)
 
 
 def run_part(sh, insts, nstates, seed, tier):
@@ -580,6 +663,9 @@ def run_part(sh, insts, nstates, seed, tier):
 
 def run_shard(shard, tier, seed):
     sh = common.Shard()
+    if shard[0] == 'mode16':
+        run_mode16(sh, tier, seed)
+        return sh
     insts = [x for j, x in enumerate(instances()) if j % NPARTS == shard[1]]
     run_part(sh, insts, 24 if tier == 'quick' else 400, seed, tier)
     return sh
@@ -613,6 +699,9 @@ def replay(w):
     from miasmx.arch.ia32_arch import x86mnemo
     from miasmx.core.bin_stream import bin_stream
     sh = common.Shard()
+    if w.get('mode16'):
+        run_mode16(sh, 'quick', 0)
+        return [(v['key'], v['detail']) for v in sh.violations if v['witness'].get('text') == w['text']]
     inst = [i for i in instances() if i['text'] == w['text']]
     if not inst:
         return []
